@@ -849,6 +849,15 @@ func (e *Enc) scanFuncMods(fn *ssa.Function, mods map[string]bool, depth int) {
 }
 
 func (e *Enc) scanBlockMods(fn *ssa.Function, b *ssa.BasicBlock, mods map[string]bool, depth int, fr *Frame) {
+	// event counters bumped at anchored calls of this function (`at call … bump`):
+	// conservatively modified by every block of it
+	if fr != nil && fr.con != nil {
+		for _, aa := range fr.con.Asserts {
+			if aa.Bump != "" {
+				mods["ghost."+aa.Bump] = true
+			}
+		}
+	}
 	for _, ins := range b.Instrs {
 		switch t := ins.(type) {
 		case *ssa.Store:
